@@ -326,6 +326,117 @@ fn collections(tys: &[G], t: &mut Tally) {
     }
 }
 
+// ------------------------------------------------------------------ public macros, where-predicates
+
+/// Holders with 1..5 members whose usage impls come from the public `uses_type_params!` /
+/// `uses_lifetimes!` macros: the answer is the union over every listed member.
+pub struct H1 {
+    a: syn::Type,
+}
+pub struct H2 {
+    a: syn::Type,
+    b: syn::Type,
+}
+pub struct H3 {
+    a: syn::Type,
+    b: syn::Type,
+    c: syn::Type,
+}
+pub struct H5 {
+    a: syn::Type,
+    b: syn::Type,
+    c: syn::Type,
+    d: syn::Type,
+    e: syn::Type,
+}
+darling::uses_type_params!(H1, a);
+darling::uses_lifetimes!(H1, a);
+darling::uses_type_params!(H2, a, b);
+darling::uses_lifetimes!(H2, a, b);
+darling::uses_type_params!(H3, a, b, c);
+darling::uses_lifetimes!(H3, a, b, c);
+darling::uses_type_params!(H5, a, b, c, d, e);
+darling::uses_lifetimes!(H5, a, b, c, d, e);
+
+fn holders(tys: &[G], t: &mut Tally) {
+    let n = tys.len();
+    let pick = |i: usize| &tys[(i * 104729 + 31) % n];
+    let unit = g("u8", 0);
+    for i in 0..n.min(3000) {
+        // the informative member in each position, the others neutral; then all informative
+        let ms = [pick(i), pick(i + 1), pick(3 * i + 2), pick(5 * i + 1), pick(7 * i + 4)];
+        let parse = |x: &G| syn::parse_str::<syn::Type>(&x.text).ok();
+        let Some(tv): Option<Vec<syn::Type>> = ms.iter().map(|m| parse(m)).collect() else { continue };
+        let u: syn::Type = syn::parse_str(&unit.text).unwrap();
+        for purpose in [Purpose::BoundImpl, Purpose::Declare] {
+            let opts: darling_core::usage::Options = purpose.into();
+            let set = type_set(7);
+            let lset = lt_set(3);
+            let pick_mask = |m: &G| if matches!(purpose, Purpose::BoundImpl) { m.bi } else { m.decl };
+            let mask_of = |s: &IdentSet| -> u8 { ["T", "U", "X"].iter().enumerate().fold(0, |a, (i, n)| a | if s.contains(&ident(n)) { 1 << i } else { 0 }) };
+            let lmask_of = |s: &LifetimeSet| -> u8 { ["'a", "'b"].iter().enumerate().fold(0, |a, (i, n)| a | if s.contains(&syn::Lifetime::new(n, proc_macro2::Span::call_site())) { 1 << i } else { 0 }) };
+            let mut cases: Vec<(String, u8, u8, u8)> = vec![]; // (what, got types, got lifetimes, want)
+            for pos in 0..5 {
+                // only member `pos` is informative
+                let mut v = vec![u.clone(); 5];
+                v[pos] = tv[pos].clone();
+                let want = pick_mask(ms[pos]);
+                let r = catch(std::panic::AssertUnwindSafe(|| {
+                    let mut out = vec![];
+                    let h5 = H5 { a: v[0].clone(), b: v[1].clone(), c: v[2].clone(), d: v[3].clone(), e: v[4].clone() };
+                    out.push((format!("5-member holder, member {pos} = `{}`", ms[pos].text), mask_of(&h5.uses_type_params_cloned(&opts, &set)), lmask_of(&h5.uses_lifetimes_cloned(&opts, &lset)), want));
+                    if pos < 3 {
+                        let h3 = H3 { a: v[0].clone(), b: v[1].clone(), c: v[2].clone() };
+                        out.push((format!("3-member holder, member {pos} = `{}`", ms[pos].text), mask_of(&h3.uses_type_params_cloned(&opts, &set)), lmask_of(&h3.uses_lifetimes_cloned(&opts, &lset)), want));
+                    }
+                    if pos < 2 {
+                        let h2 = H2 { a: v[0].clone(), b: v[1].clone() };
+                        out.push((format!("2-member holder, member {pos} = `{}`", ms[pos].text), mask_of(&h2.uses_type_params_cloned(&opts, &set)), lmask_of(&h2.uses_lifetimes_cloned(&opts, &lset)), want));
+                    }
+                    if pos < 1 {
+                        let h1 = H1 { a: v[0].clone() };
+                        out.push((format!("1-member holder = `{}`", ms[pos].text), mask_of(&h1.uses_type_params_cloned(&opts, &set)), lmask_of(&h1.uses_lifetimes_cloned(&opts, &lset)), want));
+                    }
+                    out
+                }));
+                match r {
+                    Ok(o) => cases.extend(o),
+                    Err(p) => t.violate(Violation { key: format!("C19 holder member={} :: panicked: {p}", ms[pos].text), what: format!("usage analysis of a macro-generated holder panicked: {p}"), case: json!({}), detail: json!({}) }),
+                }
+            }
+            // where-predicates: `A: Tr<B> + Tr2<C>`, lifetimes in the bounds included
+            let pred_src = format!("{}: Tr<{}> + Tr2<{}>", ms[0].text, ms[1].text, ms[2].text);
+            if let Ok(pred) = syn::parse_str::<syn::WherePredicate>(&pred_src) {
+                let want = pick_mask(ms[0]) | pick_mask(ms[1]) | pick_mask(ms[2]);
+                if let Ok(lm) = catch(std::panic::AssertUnwindSafe(|| lmask_of(&pred.uses_lifetimes_cloned(&opts, &lset)))) {
+                    t.evaluations += 1;
+                    t.hit("where_predicates_checked");
+                    if lm != (want >> 3) & 3 {
+                        t.violate(Violation {
+                            key: format!("C19 predicate `{pred_src}` lifetimes :: {lm:#04b} expected {:#04b}", (want >> 3) & 3),
+                            what: format!("uses_lifetimes(where-predicate `{pred_src}`) = {lm:#04b}, the union of its parts is {:#04b}", (want >> 3) & 3),
+                            case: json!({}),
+                            detail: json!({}),
+                        });
+                    }
+                }
+            }
+            for (what, m, lm, want) in cases {
+                t.evaluations += 1;
+                t.hit("holders_checked");
+                if m != want & 7 || lm != (want >> 3) & 3 {
+                    t.violate(Violation {
+                        key: format!("C19 {what} purpose={} :: got {:?}/{lm:#04b} expected {:?}/{:#04b}", if matches!(purpose, Purpose::BoundImpl) { "BoundImpl" } else { "Declare" }, names(m), names(want & 7), (want >> 3) & 3),
+                        what: format!("{what}: uses {:?} lifetimes {lm:#04b}, that member alone uses {:?} / {:#04b}", names(m), names(want & 7), (want >> 3) & 3),
+                        case: json!({}),
+                        detail: json!({}),
+                    });
+                }
+            }
+        }
+    }
+}
+
 // ------------------------------------------------------------------ derive half
 
 fn squash(s: String) -> String {
@@ -546,6 +657,7 @@ pub fn main(args: &Args) {
     rep.absorb(tl);
     let mut t = Tally::default();
     collections(&tys, &mut t);
+    holders(&tys, &mut t);
     let small: Vec<G> = types(1).into_iter().filter(|g| !g.text.contains("impl ")).collect();
     derive_half(&small, thorough, &mut t);
     rep.absorb(t);
